@@ -34,7 +34,7 @@ type W struct {
 
 // MaxBytes caps what one harness run may write (ops + impl): a change to the code under test that makes a harness loop
 // must not fill the disk.  Exceeding it ends the process with exit status 97.
-var MaxBytes int64 = 3 << 30
+var MaxBytes int64 = 1 << 30
 
 func New(dir string) *W {
 	if err := os.MkdirAll(dir, 0o755); err != nil {
